@@ -13,6 +13,7 @@ SPEC = {
         "same backslash counter n and emit '\\\\'; the 2n+1 and the plain case then push arg[i] itself; the counter "
         "counts exactly the consecutive backslashes; (d) an opening and a closing quote bracket the loop on every "
         "path; (e) arguments are taken in order, separated by exactly one space, none before the first."
+        " (f) scan discipline: the cursor starts at 0, every arg[i] is read in bounds for the current i, every cycle advances i or is a counted emission loop (for-loop or repeat().take(K)), a unit is copied once per visit; the trigger literal set is computed path-exactly."
     ),
     "not_decided": "agreement with CommandLineToArgvW as a parser for all argument vectors (value-level round trip); argv[0]'s special parsing.",
     "trusted_base": ["rustc MIR for the windows-msvc target (std built from rust-src)", "the MSVCRT / CommandLineToArgvW quoting rules (2n / 2n+1 / n backslashes)",
